@@ -374,6 +374,11 @@ def do_sign(H, op, pos, st):
                 st.calls += 1
             L.cb_take()
         st.count("refused-but-sig-object-written")
+        # "signing with a zeroed, already-used or foreign-keyed secret nonce produces no signature": a refused call that
+        # nevertheless stores a well-formed partial-signature object (magic + scalar, accepted by partial_sig_serialize /
+        # partial_sig_agg) HAS produced one - computed from the live nonce - whatever its return value says
+        bad(st, H, "partial_sign[%s,%s] returned %d but wrote a well-formed partial-signature object into the output (s = %s): a signature was produced from the secret nonce by a call that must produce none"
+            % (ksel, v, ret, hx(out.raw[4:36])))
     elif a_out is not None:
         if not is_zero(out.raw):
             st.count("refused-output-touched")
